@@ -308,6 +308,9 @@ def po6(facts, rep):
                 rep.ok(rule, k2, o['where'], 'interval analysis')
             elif key in PO6_AUDIT:
                 rep.audited(rule, k2, o['where'], PO6_AUDIT[key])
+            elif eng_po.orphan_match(key, PO6_AUDIT, set(facts.bodies) | {'QGramIndex::' + b_.name for b_ in facts.body_list}):
+                k0 = eng_po.orphan_match(key, PO6_AUDIT, set(facts.bodies) | {'QGramIndex::' + b_.name for b_ in facts.body_list})
+                rep.audited(rule, k2, o['where'], 'arithmetic of the removed function %s, now written in its caller: %s' % (k0.split('|')[0], PO6_AUDIT[k0]))
             else:
                 rep.bad(rule, key, o['where'], 'undischarged %s obligation on %s operands: %s' % (o['kind'], o.get('ty', '?'), o['detail']))
     rep.floor(rule, 'obligations', total, 12)
@@ -322,3 +325,14 @@ def run(facts, rep, ctx):
     from . import c19b
     c19b.dk1(facts, rep)
     c19b.ev1(facts, rep)
+
+
+_run_before_round3 = run
+
+
+def run(facts, rep, ctx):
+    """rules added after the second seeding round, second half (rules/round3.py)"""
+    _run_before_round3(facts, rep, ctx)
+    from . import round3
+    round3.qm1(facts, rep)
+
